@@ -109,6 +109,18 @@ class DensityInversion(Case):
                         if self.params["fail"]:
                             v["fail"] = f_
                         yield v
+        if self.params["lens"] == "same":
+            # depths that differ by millimetres / centimetres at great depth (distinct numbers: the cast direction is
+            # their order, however close they are), densities stepping by whole units
+            for zs in ([1000.0, 1000.005], [1000.005, 1000.0], [4000.0, 4000.03, 4000.06, 4000.09], [4000.09, 4000.06, 4000.03, 4000.0], [1.0, 1.0000000000000002, 1.0000000000000004]):
+                for xs in ([1025, 1024, 1023, 1022], [1022, 1023, 1024, 1025], [1025, 1022, 1026, 1021]):
+                    for s_, f_ in ths:
+                        v = {"n": len(zs), "x": list(xs[: len(zs)]), "z": list(zs), "keep": 1}
+                        if self.params["sus"]:
+                            v["sus"] = s_
+                        if self.params["fail"]:
+                            v["fail"] = f_
+                        yield v
 
 
 class PressureIncreasing(Case):
